@@ -187,6 +187,8 @@ type storeEnv struct {
 	crashDepth        int    // number of crashes this store directory went through
 	wideKeys          int    // > 0: number of extra keys to draw from
 	compactBias       bool   // maintenance favours index compaction
+	emptyValuePct     int    // extra probability of empty values
+	starvePct         int    // probability that a committer is starved during its commit
 }
 
 func (e *storeEnv) valueOptional(id uint64) bool {
@@ -811,6 +813,9 @@ func (e *storeEnv) genWrites(task string, tx *store.OngoingTx, maxEntries int, m
 		var md *store.KVMetadata
 		var val []byte
 		w := r.Intn(20)
+		if e.emptyValuePct > 0 && r.Pct(e.emptyValuePct) {
+			w = 3
+		}
 		if e.cfg.HdrVersion == 0 && w <= 2 {
 			w = 10 // entry metadata needs tx header version 1
 		}
